@@ -296,6 +296,24 @@ func (e *idxEnv) mutate(r *rand.Rand, ids []string, n int) (idxMut, interface{},
 	return m, before, e.model[id]
 }
 
+// burst: one writer mutates a few ids much faster than the slowed index worker
+// works, so that more index updates are outstanding than the index queue
+// (256 slots) holds, with several updates of the same id among them. Returns
+// the mutations with the model value before and after each, and the largest
+// number of outstanding index updates it saw.
+func (e *idxEnv) burst(r *rand.Rand, ids []string, n0, count int) (muts []idxMut, befores, afters []interface{}, maxOutstanding int64) {
+	atomic.StoreInt32(&e.slow, 250)
+	defer atomic.StoreInt32(&e.slow, 0)
+	for k := 0; k < count; k++ {
+		m, b, a := e.mutate(r, ids, n0+k)
+		muts, befores, afters = append(muts, m), append(befores, b), append(afters, a)
+		if o := atomic.LoadInt64(&idxTasksEnqueued) - sched.Count("index.end"); o > maxOutstanding {
+			maxOutstanding = o
+		}
+	}
+	return
+}
+
 // mutateTxn performs a write transaction with a read followed by two or three
 // mutations of the same id (each mutation is one index task). Returns the
 // mutations in order with the model value before and after each.
@@ -479,6 +497,16 @@ func c13History(c *core.Ctx, env *idxEnv, r *rand.Rand, h int) {
 		}
 		env.qs.Flush()
 		env.checkQueries(c, "C13", hist, idxBattery(r, len(env.model)), fmt.Sprintf("h%d/s%d", h, s))
+	}
+	if h == 1 {
+		// index queue overflow: the index must still end up reflecting the last mutation of every id
+		ms, _, _, maxOut := env.burst(r, ids[:6], n, 900)
+		n += len(ms)
+		hist = append(hist, ms...)
+		c.Max("max_outstanding_index_updates", maxOut)
+		c.Obs("burst_mutations", int64(len(ms)))
+		env.qs.Flush()
+		env.checkQueries(c, "C13", hist, idxBattery(r, len(env.model)), fmt.Sprintf("h%d/burst", h))
 	}
 	c.Obs("mutations", int64(n))
 	if h == 0 {
